@@ -6,6 +6,7 @@
 import PjVerif.Lemmas.SchedC09
 import PjVerif.Props.Witness
 import PjVerif.Lemmas.ScheduleSrc
+import PjVerif.Lemmas.PassSrcBwd
 namespace Pj
 
 /-- no task ends after the requested project end -/
@@ -65,5 +66,16 @@ theorem C09_source_shift_backward (fuel : Nat) (cal : Cal) (b : Bool) (rows : Li
       (shiftBwd cal (SchedSrc.usedOf rows r t b) end_ left).map
         (fun p => (p.1, (rows ++ p.2.map (mkRow r t)).map SchedSrc.encRow)) :=
   SchedSrc.interpShiftBwd_eq fuel cal b rows r t end_ left hf
+
+/-- the translated `BackwardScheduler.__backward_pass` (Extracted/PassSrc.lean), interpreted on the encoding of a model state,
+    is the encoding of the model's `bwdPass` - unless the model run ends in RecursionError (see `*_source_forward_pass`).
+    `encSB` is `encS` with the tasks' successor lists. -/
+theorem C09_source_backward_pass (env : Env) (ms : Uid → Bool) (wfuel : Nat)
+    (hms : ∀ u, (env.info u).milestone = (ms u && (env.info u).children.isEmpty))
+    (hw : Extracted.bwdShiftMaxSteps < wfuel) (fuel fuel' : Nat) (hle : fuel ≤ fuel') (stk : List Uid) (σ : SS)
+    (t : Uid) (minDate : Time) (hne : bwdPass env fuel stk σ t minDate ≠ .error (.crash .recursion)) :
+    PassSrcBwd.interpBwdPass env wfuel (PassSrc.calRef σ.res) fuel' (PassSrcBwd.encSB env ms σ) t minDate =
+      (bwdPass env fuel stk σ t minDate).map (PassSrcBwd.encSB env ms) :=
+  PassSrcBwd.interpBwdPass_eq env ms wfuel hms hw fuel fuel' hle stk σ t minDate hne
 
 end Pj
